@@ -4,6 +4,8 @@ CONSTANT MaxTasks = 3
 CONSTANT MaxOps = 4
 CONSTANT MaxSpawn = 2
 CONSTANT FlagUnderMutex = TRUE
+CONSTANT Expiry = FALSE
+CONSTANT FinishedAtomic = TRUE
 CONSTANT AllowSpurious = FALSE
 INVARIANTS TypeOK NoDeadlockB PoolBounded C08Quiescent QueueConsistent AllDestroyedAtEnd MutexOK NoRace
 CONSTRAINT SpawnBound
